@@ -181,6 +181,14 @@ func janQuiesce(maxY int) bool {
 // the pass to complete. delivered reports how many ticks went out; ok is false
 // if a due tick was not accepted or the janitor did not come back to its wait.
 func janAdvanceTo(now int64, maxY int) (delivered int, ok bool) {
+	return janAdvance(now, maxY, false)
+}
+
+// janAdvance with burst=true additionally offers every source that was due two
+// more ticks at the same instant, without waiting for the pass to end: the next
+// tick is then already pending while a pass runs - the situation of a sweep that
+// takes longer than an interval.
+func janAdvance(now int64, maxY int, burst bool) (delivered int, ok bool) {
 	vshim.SetVNow(now)
 	for round := 0; round < 4; round++ {
 		n := 0
@@ -191,6 +199,10 @@ func janAdvanceTo(now int64, maxY int) (delivered int, ok bool) {
 			}
 			if sent {
 				n++
+				if burst && !s.IsOneShot() {
+					s.FireWait(maxY)
+					s.FireWait(maxY)
+				}
 			}
 		}
 		delivered += n
@@ -276,6 +288,13 @@ func runJanitor(a *args, res *result) {
 			continue
 		}
 		janitorPair(res, fl)
+	}
+	// ---- a ticker that is faster than the sweep: the next tick is always pending
+	for fi, fl := range cacheFlavors {
+		if !a.mine(int64(fi) + 1) {
+			continue
+		}
+		fastTicker(res, fl)
 	}
 	// ---- lifetime rounds
 	for i := int64(0); i < a.n2; i++ {
@@ -366,13 +385,14 @@ func runJanitorCase(res *result, r rng, jc janCase, idx int64) {
 		}
 		removed := map[int]bool{}
 		ticks := r.between(3, 8)
+		burst := r.chance(0.5) // half of the cases: further ticks are pending while a pass runs
 		now := epoch
 		for t := 1; t <= ticks; t++ {
 			now += int64(jc.interval)
 			vshim.SetVNow(now)
 			// deliver tick t, then two more "flush" ticks at the same instant: when the
 			// third is accepted, the pass triggered by the first has completed
-			nd, ok := janAdvanceTo(now, maxYield)
+			nd, ok := janAdvance(now, maxYield, burst)
 			if !ok {
 				bad("janitor does not consume ticks", fmt.Sprintf("tick %d at +%d: a due tick was not accepted or the pass did not complete within %d yields", t, now-epoch, maxYield))
 				return
@@ -756,4 +776,58 @@ func janitorPair(res *result, flavor string) {
 		runtime.KeepAlive(c)
 	}
 	vshim.SetTokenMode(false)
+}
+
+// fastTicker: ticks are delivered back to back, each one interval of virtual time
+// after the previous, as soon as the janitor has room for it - a sweep that is
+// slower than its ticker. Cleanup must still be bounded: when tick t has been
+// accepted, tick t-1 has been taken, so the pass of tick t-2 is complete (or was
+// merged into a later one); everything that expired before tick t-4 must be gone.
+func fastTicker(res *result, flavor string) {
+	interval := time.Millisecond
+	vshim.SetVNow(epoch)
+	vshim.ResetTickers()
+	led := &ledger{}
+	c := newCache(cacheSpec{Flavor: flavor, Ctor: "New", OptMask: 1 | 2 | 4, DefExp: time.Hour, Interval: interval, NKeys: 256, Callback: led.cb(1)})
+	if len(waitTicker(1)) != 1 {
+		return
+	}
+	const n = 60
+	exp := make([]int64, n)
+	for k := 0; k < n; k++ {
+		d := interval*time.Duration(k%20+1) + time.Duration(k)
+		c.Set(k, nextVal(k), d)
+		exp[k] = epoch + int64(d)
+	}
+	logCase("janitor fast-ticker %s", flavor)
+	res.Evaluations++
+	fp := newFP()
+	fp.addStr("fast-ticker" + flavor)
+	res.nontrivial(fp.sum())
+	now := int64(epoch)
+	for t := 1; t <= 60; t++ {
+		now += int64(interval)
+		vshim.SetVNow(now)
+		if !janDeliver(maxYield) {
+			res.violate(violation{Class: "janitor", Sig: "janitor does not consume ticks", Msg: fmt.Sprintf("%s: back-to-back tick %d not accepted", flavor, t), Case: map[string]any{"flavor": flavor, "tick": t}})
+			return
+		}
+		res.count("fast_ticks_delivered", 1)
+		if t < 6 {
+			continue
+		}
+		limit := now - 4*int64(interval)
+		overdue := 0
+		for k := 0; k < n; k++ {
+			if exp[k] < limit {
+				overdue++
+			}
+		}
+		if cnt := c.Count(); cnt > n-overdue {
+			res.violate(violation{Class: "janitor", Sig: "expired entries are not removed while ticks arrive faster than the sweep", Msg: fmt.Sprintf("%s: tick %d accepted (ticks delivered back to back, one interval of virtual time apart): Count()=%d, %d of %d entries expired more than four intervals ago", flavor, t, cnt, overdue, n), Case: map[string]any{"flavor": flavor, "tick": t}})
+			return
+		}
+	}
+	janQuiesce(1 << 14)
+	runtime.KeepAlive(c)
 }
